@@ -197,8 +197,22 @@ def alter_pipeline_for_debugging(pipe):
         "a second time."
     )
 
-    for model_ in enumerate_pipeline_models(pipe):
-        model = model_[1]
+    models = [model_[1] for model_ in enumerate_pipeline_models(pipe)]
+    # a fitted ColumnTransformer runs its fitted copies (transformers_),
+    # not the transformers it was given
+    done = set()
+    pos = 0
+    while pos < len(models):
+        model = models[pos]
+        pos += 1
+        if isinstance(model, ColumnTransformer) and hasattr(model, "transformers_"):
+            for _, fitted, _ in model.transformers_:
+                if not isinstance(fitted, str):
+                    models.extend(m[1] for m in enumerate_pipeline_models(fitted))
+    for model in models:
+        if id(model) in done:
+            continue
+        done.add(id(model))
         model._debug = BaseEstimatorDebugInformation(model)
         for k in model._debug.methods:
             try:
